@@ -180,7 +180,7 @@ static struct hdr* live_head = NULL;
 static struct hdr* q_head = NULL;   /* oldest */
 static struct hdr* q_tail = NULL;
 static uint64_t q_bytes = 0;
-static uint64_t q_cap = 32ULL << 20;
+static uint64_t q_cap = 8ULL << 20;
 static uint64_t serial = 0;
 static uint64_t st_malloc = 0, st_free = 0, st_realloc = 0, st_moved = 0, st_foreign = 0, st_live = 0;
 static char heap_err[512];
@@ -240,13 +240,16 @@ static inline struct hdr* H(void* p){ return (struct hdr*)((unsigned char*)p - H
 static inline unsigned char* P(struct hdr* h){ return (unsigned char*)h + HDR; }
 
 static int check_canaries(struct hdr* h, const char* what){
+    /* a damaged canary is reported once and then repaired, so that one overflow is one report */
     for (int i = 0; i < (int)sizeof(h->pad); i++) if (h->pad[i] != CANARY){
         herr("heap: front canary overwritten (%s) block size=%lu serial=%lu byte -%d", what, (unsigned long)h->size, (unsigned long)h->serial, (int)sizeof(h->pad) - i);
+        memset(h->pad, CANARY, sizeof(h->pad));
         return 1;
     }
     unsigned char* t = P(h) + h->size;
     for (int i = 0; i < TAIL; i++) if (t[i] != CANARY){
         herr("heap: tail canary overwritten (%s) block size=%lu serial=%lu byte +%d", what, (unsigned long)h->size, (unsigned long)h->serial, i);
+        memset(t, CANARY, TAIL);
         return 1;
     }
     return 0;
@@ -276,8 +279,14 @@ static void live_unlink(struct hdr* h){
 
 static int check_poison(struct hdr* h){
     unsigned char* p = P(h);
-    for (uint64_t i = 0; i < h->size; i++) if (p[i] != FILL_FREE){
+    uint64_t n = h->size, i = 0;
+    for (; i + 8 <= n; i += 8){
+        uint64_t w; memcpy(&w, p + i, 8);
+        if (w != 0xFFFFFFFFFFFFFFFFULL) break;
+    }
+    for (; i < n; i++) if (p[i] != FILL_FREE){
         herr("heap: write after free: block size=%lu serial=%lu offset=%lu", (unsigned long)h->size, (unsigned long)h->serial, (unsigned long)i);
+        memset(p, FILL_FREE, n);
         return 1;
     }
     return 0;
